@@ -538,6 +538,13 @@ def _bi_iter(E, args, kwargs, st, node):
     return [(st, args[0])]
 
 
+def _bi_super(E, args, kwargs, st, node):
+    from .engine import SuperProxy, ClassRef
+    if len(args) != 2 or not isinstance(args[0], ClassRef) or not isinstance(args[1], ObjV):
+        raise EngineError("super() form not modelled")
+    return [(st, SuperProxy(args[1], args[0].node.name))]
+
+
 def _bi_round(E, args, kwargs, st, node):
     raise EngineError("round() not modelled")
 
@@ -553,7 +560,7 @@ BUILTINS = {
     "reversed": _bi_reversed, "sorted": _bi_sorted, "isinstance": _bi_isinstance, "slice": _bi_slice,
     "divmod": _bi_divmod, "bytes": _bi_bytes, "bytearray": _bi_bytes, "set": _bi_set, "frozenset": _bi_set,
     "dict": _bi_dict, "str": _bi_str, "repr": _bi_str, "getattr": _bi_getattr, "next": _bi_next, "iter": _bi_iter,
-    "pow": _bi_pow,
+    "pow": _bi_pow, "super": _bi_super,
 }
 
 
